@@ -191,6 +191,8 @@ def run_impl(script, cases, timeout=900, hashseed='0', shards=8, extra_env=None)
 
     def one(chunk):
         rc, out, err = sh([VENV_PY, f"{ROOT}/{script}"], timeout, cwd='/', env=env, inp=json.dumps(chunk))
+        if rc == 124:       # out of time (a loaded machine?): once more with twice the limit before the shard counts as failed
+            rc, out, err = sh([VENV_PY, f"{ROOT}/{script}"], 2 * timeout, cwd='/', env=env, inp=json.dumps(chunk))
         try:
             res = json.loads(out[out.index('\x01JSON\x01') + 6:])
             assert len(res) == len(chunk)
@@ -236,7 +238,18 @@ def coq_eval_cases(prop_id, run_module, header, terms, shard_size=300, timeout=9
     fails = {fn: [] for fn in fns}
     ok, log = True, ''
     with ThreadPoolExecutor(max_workers=8) as ex:
-        for s, rc, out, err in ex.map(one, files):
+        results = list(ex.map(one, files))
+    # a shard that ran out of time (a loaded machine) is evaluated once more, alone and with three times the limit, before the
+    # evaluation is declared broken
+    slow = [(s, name) for (s, name), r in zip(files, results) if r[1] == 124]
+    if slow:
+        redo = {}
+        for s, name in slow:
+            rc, out, err = sh(['coqc'] + COQFLAGS + [os.path.relpath(name, ROOT)], 3 * timeout)
+            redo[s] = (s, rc, out, err)
+        results = [redo.get(r[0], r) for r in results]
+    if True:
+        for s, rc, out, err in results:
             groups = re.findall(r'=\s*\[([^\]]*)\]\s*:\s*list nat', out)
             if rc != 0 or len(groups) != len(fns):
                 ok = False
